@@ -398,7 +398,7 @@ func classify(err error) string {
 		return "(Err ENoChain)"
 	case strings.Contains(s, "Can not zero pad"):
 		return "(Err EPad)"
-	case strings.Contains(s, "invalid job id"), strings.Contains(s, "missing payload"):
+	case strings.Contains(s, "invalid job id"), strings.Contains(s, "missing payload"), strings.Contains(s, "you must provide a jobID"):
 		return "(Err EWasmInvalid)"
 	}
 	return "other:" + s
@@ -678,7 +678,7 @@ func runHistory(run *emit.Run, hs *histSpec, tag string) (res *histResult, fatal
 					_, _, _, xerr = e.legacy.DispatchMsg(octx, sdk.AccAddress(contract), "", wasmvmtypes.CosmosMsg{Custom: lj})
 					suppliedJSON = wrapJSON(in)
 					effSender, effContract = contract, contract
-					opTerm = fmt.Sprintf("(OExec (mkExec %s (Some %s) %s %s %s %s %s))", cs(op.ID), cb(suppliedJSON), cob(contract, false), cob(contract, false), emit.Bool(pre), pickT, emit.Bool(op.Atomic))
+					opTerm = fmt.Sprintf("(OLegacyExec %s %s %s %s %s %s)", cs(op.ID), cb(in), cb(contract), emit.Bool(pre), pickT, emit.Bool(op.Atomic))
 				default:
 					var s, c sdk.AccAddress
 					if !op.SNil {
@@ -998,7 +998,10 @@ func genHistory(r *rand.Rand, hostile bool) *histSpec {
 			case 1:
 				op.Path = "wasm"
 				op.Contract = hex.EncodeToString(contracts[r.Intn(len(contracts))])
-				op.In = string(randAddr(r, r.Intn(6)*r.Intn(9)))
+				op.In = string(randAddr(r, 1+r.Intn(40)))
+				if r.Intn(8) == 0 {
+					op.In = ""
+				}
 				if r.Intn(10) == 0 {
 					op.ID = ""
 				}
@@ -1006,6 +1009,9 @@ func genHistory(r *rand.Rand, hostile bool) *histSpec {
 				op.Path = "legacy"
 				op.Contract = hex.EncodeToString(contracts[r.Intn(len(contracts))])
 				op.In = string(randAddr(r, r.Intn(40)))
+				if r.Intn(10) == 0 {
+					op.ID = ""
+				}
 			default:
 				op.Path = "keeper"
 				lens := []int{20, 32, 33, 0, 31, 64}
